@@ -211,6 +211,7 @@ import warnings; warnings.filterwarnings("ignore")
 import logging; logging.disable(logging.CRITICAL)
 import numpy as np
 from fractions import Fraction
+nan = float("nan")
 def reproduced(msg):
     print("REPRODUCED:", msg); sys.exit(1)
 def not_reproduced(msg=""):
